@@ -89,7 +89,7 @@ where
     let mut escapes = false;
     while cursor < f.len() {
         if let Some(start) = (f[cursor..]).find("${") {
-            if start > 0 && (&f[cursor..])[start - 1..start] == *"\\" {
+            if start > 0 && f.as_bytes()[cursor + start - 1] == b'\\' {
                 cursor += start + 1;
                 escapes = true;
                 continue;
